@@ -288,7 +288,7 @@ SingleCases ==
 PairCases ==
        {Case(<<d1, d2>>, <<>>, Ok1) : d1 \in CoreIn, d2 \in CoreIn}
   \cup {Case(<<>>, <<d1, d2>>, x) : d1 \in CoreOut, d2 \in CoreOut, x \in Outcomes2}
-  \cup {Case(<<d1>>, <<d2>>, x) : d1 \in CoreIn, d2 \in CoreOut,
+  \cup {Case(<<d1>>, <<d2>>, x) : d1 \in {d \in CoreIn : d.sp \in {"a", "s/a"}}, d2 \in CoreOut,
                                    x \in {Ok1, [oc |-> "FAILED", soe |-> FALSE],
                                           [oc |-> "CANCELED", soe |-> FALSE]}}
 
